@@ -8,10 +8,11 @@ import shapes as S
 PID = 'C11'
 STATS = G.STATS
 PARTIAL = [
-    "non-singularity of the collocation matrix (Schoenberg-Whitney / total positivity) is a hypothesis: the theorem says 'whenever lu_solve returns'; the harness checks that it does return on every generated data set",
-    "surface interpolation (two-pass tensor argument) and the minimisation property of the least-squares approximation (normal equations) are not Lean theorems yet: checked by the exact oracle (surface: every data point is hit; curve approximation: normal equations N^T N P = R hold exactly, end points interpolated)",
+    "non-singularity of the collocation matrix / of N^T N (Schoenberg-Whitney / total positivity) is a hypothesis: the theorems say 'whenever lu_solve returns'; the harness checks that it does return on every generated data set",
+    "least squares: the normal equations and the minimisation theorem (approximateCurve_minimises) are proved for the curve written as sum_j N_j,p(u_k) P_j with N_j,p as computed by basis_function_one (the values the code puts into N); the version for the EVALUATED curve (approximateCurve_minimises_evaluated_distinct) still takes 'basis_function_one = Cox-de Boor at the interior parameters' as hypothesis hB (that is theorem basisFunOne_eq_cdb of C03, not imported here)",
+    "the averaged knot vector of the interpolation is proved non-decreasing under invp*p*u_(n-2) <= 1 (holds for invp = 1/p exactly; invp is the double 1.0/p)",
     "chord lengths and their square roots are doubles computed by math.sqrt: passed to the model as inputs (exact dyadic values)",
-    "approximate_surface is checked by the oracle only (corner interpolation)",
+    "approximate_surface is not modelled: checked by the oracle only (corner interpolation)",
 ]
 ASSUMPTIONS = ["int(j * d) in compute_knot_vector2 is evaluated exactly here; in floating point j*d may round across an integer"]
 
